@@ -482,6 +482,14 @@ def main():
                             ("set-on-partially-applied-version", [fl("100"), {"op": "add", "ver": "110", "ck": False, "inserts": 3, "fail_at": 2}, fl("120")], [ap("linear"), st("110"), ap("linear", n=1), ap("linear")])):
         cases.append({"seq": name, "len": len(ops), "predirty": False, "init": init, "ops": ops, "scripted": True})
 
+    # scripted: a history that starts with a BASELINE revision, then `migrate set` to a version that precedes the baseline
+    # (every newer revision, the baseline included, is removed) / to the baseline / purge with an emptied directory
+    for name, ops in (("set-below-baseline", [apb("linear", "120"), st("110"), ap("linear", n=1), ap("linear")]),
+                      ("set-below-baseline-first-file", [apb("linear", "120", n=1), st("100"), ap("linear")]),
+                      ("set-to-baseline", [apb("linear", "120"), st("120"), ap("linear")]),
+                      ("set-noarg-purges-baseline", [apb("linear", "120")] + [{"op": "delete", "ver": v} for v in ("100", "110", "120", "130")] + [setn])):
+        cases.append({"seq": name, "len": len(ops), "predirty": True, "init": [fl("100"), fl("110"), fl("120"), fl("130")], "ops": ops, "scripted": True})
+
     def work(cs):
         r = Runner(ctx, cs)
         why = r.run()
